@@ -57,13 +57,14 @@ RunFrom(s, toks, i) == IF i > Len(toks) THEN s ELSE RunFrom(StepTok(s, toks[i].t
 (* a recorded token stream is one the mode machine can produce, and it ends with the end-of-file token *)
 ModesAccept(mode, toks) == LET s == RunFrom(Start(mode), toks, 1) IN s.ok /\ s.eof
 
-(* lexing loses nothing: tok = [ty, s (start), e (end), gap ("none" | "blank" | "other"), bytes (exactly the input's), line (as counted from the input)] *)
+(* lexing loses nothing: tok = [ty, s (start), e (end), gap ("none" | "blank" | "bom" | "other"), bytes (exactly the input's), line (as counted from the input)] *)
 RECURSIVE LexFrom(_, _, _, _)
 LexFrom(toks, i, prevEnd, len) ==
   IF i > Len(toks) THEN prevEnd = len
   ELSE LET t == toks[i] IN
        /\ t.s >= prevEnd /\ t.e >= t.s /\ t.e <= len
-       /\ t.gap \in {"none", "blank"} /\ (t.gap = "none" <=> t.s = prevEnd)
+       /\ (t.gap \in {"none", "blank"} \/ (t.gap = "bom" /\ prevEnd = 0))     \* a byte order mark may precede the first token
+       /\ (t.gap = "none" <=> t.s = prevEnd)
        /\ t.bytes /\ t.line
        /\ (t.ty = "TokenEOF" => i = Len(toks) /\ t.s = len /\ t.e = len)
        /\ LexFrom(toks, i + 1, t.e, len)
